@@ -74,6 +74,13 @@ var c19Conds = []c19Cond{
 		}
 		return dir, nil
 	}},
+	{id: "file-sourcing-itself", names: []string{"t"}, setup: func(dir string) (string, func()) {
+		os.WriteFile(filepath.Join(dir, "t.sql"), []byte("SOURCE `t.sql`;\n"), 0644)
+		os.WriteFile(filepath.Join(dir, "t"), []byte("SOURCE `u.sql`;\n"), 0644)
+		os.WriteFile(filepath.Join(dir, "u.sql"), []byte("SOURCE `t`;\n"), 0644)
+		os.Chdir(dir) // SOURCE resolves a relative path against the working directory
+		return dir, func() { os.Chdir("/") }
+	}},
 	{id: "name-too-long", names: []string{strings.Repeat("n", 300)}, setup: func(dir string) (string, func()) { return dir, nil }},
 }
 
